@@ -34,14 +34,15 @@ end module kinds_m
 
 # array bounds that reference other symbols
 SEEDS["bounds"] = '''
-subroutine bnd(a, n, m)
+subroutine bnd(a, e, n, m)
   integer, intent(in) :: n, m
-  real, intent(inout) :: a(n, 2*m)
+  real, intent(inout) :: a(n, m)
+  real, intent(in) :: e(2:)
   integer :: lo
   real :: b(n + 1), c(0:m)
   real, dimension(:), allocatable :: d
   lo = n
-  b(1) = a(1, 1)
+  b(1) = a(1, 1) + e(2)
   c(0) = b(lo)
   a(n, m) = c(0)
 end subroutine bnd
@@ -51,6 +52,8 @@ end subroutine bnd
 SEEDS["initvals"] = '''
 module init_m
   implicit none
+  private
+  public :: ini, scale
   integer, parameter :: m = 4
   integer, parameter :: m2 = 2 * m
   real :: scale = 1.0
@@ -92,6 +95,7 @@ module gen_m
   interface swap
     module procedure swap_r, swap_i
   end interface swap
+  private :: swap_i, swap
 contains
   subroutine swap_r(a, b)
     real, intent(inout) :: a, b
@@ -264,6 +268,27 @@ def post_nested(root):
                           Reference(tmp)), 0)
     ifb.if_body.addchild(
         Assignment.create(Reference(flag), Literal("1", INTEGER_TYPE)))
+    # an inner symbol that shadows a routine-scope symbol of the same name
+    shadow = ifb.else_body.symbol_table.new_symbol(
+        "j", shadowing=True, symbol_type=DataSymbol, datatype=INTEGER_TYPE)
+    ifb.else_body.addchild(
+        Assignment.create(Reference(shadow), Literal("2", INTEGER_TYPE)))
+    return root
+
+
+def post_bounds(root):
+    """An array bound that is an expression (the frontend of this version
+    only produces those as UnsupportedFortranType)."""
+    from psyclone.psyir.nodes import BinaryOperation, Literal, Reference
+    from psyclone.psyir.symbols import (DataSymbol, REAL_TYPE, INTEGER_TYPE,
+                                        ArrayType)
+    rtab = root.children[0].symbol_table
+    msym = rtab.lookup("m")
+    rtab.new_symbol(
+        "f", symbol_type=DataSymbol,
+        datatype=ArrayType(REAL_TYPE, [BinaryOperation.create(
+            BinaryOperation.Operator.MUL, Literal("2", INTEGER_TYPE),
+            Reference(msym))]))
     return root
 
 
@@ -284,7 +309,7 @@ def post_omp_lowered(root):
     return root
 
 
-POST = {"nested": post_nested, "omp": post_omp, "omp_lowered": post_omp_lowered}
+POST = {"nested": post_nested, "bounds": post_bounds, "omp": post_omp, "omp_lowered": post_omp_lowered}
 
 _PARSER = None
 _TREES = {}
